@@ -18,6 +18,8 @@ package metadata
 import (
 	"encoding/json"
 	"errors"
+	"fmt"
+	"math"
 	"reflect"
 	"strconv"
 	"time"
@@ -84,6 +86,9 @@ func toTimeDurationHookFunc() mapstructure.DecodeHookFunc {
 					seconds, errParse := strconv.ParseInt(data.(string), 10, 0)
 					if errParse != nil {
 						return nil, errors.Join(err, errParse)
+					}
+					if seconds > math.MaxInt64/int64(time.Second) || seconds < math.MinInt64/int64(time.Second) {
+						return nil, fmt.Errorf("duration %q overflows time.Duration", data.(string))
 					}
 					val = time.Duration(seconds * int64(time.Second))
 				}
